@@ -189,6 +189,21 @@ def callOK (p : List Func) (c : Bool × String × Op) : Bool :=
 /-- every call of a codec function in the generated code, as xlate read it, is the call the model's table makes for that op -/
 def callsOK (p : List Func) (cs : List (Bool × String × Op)) : Bool := cs.all (callOK p)
 
+/-- an op that names a codec primitive (not a nested message / union, which are method calls on the field) -/
+def isPrimOp : Op → Bool
+  | .scalar _ _ | .fixed _ _ _ | .vstr _ _ | .nums _ _ _ | .fixeds _ _ _ _ _ | .vstrs _ _ _ | .objs _ _ _ => true
+  | _ => false
+
+/-- … and conversely every primitive op of every message type (encoder, decoder, frame header) comes from a logged call in
+    that direction: no op reaches the model without having passed the name check -/
+def callsCover (types : List TyDef) (cs : List (Bool × String × Op)) : Bool :=
+  types.all (fun td =>
+    (td.enc.all (fun op => !isPrimOp op || cs.any (fun c => c.1 && c.2.2 == op))) &&
+    (td.dec.all (fun op => !isPrimOp op || cs.any (fun c => !c.1 && c.2.2 == op))) &&
+    (match td.frame with
+     | some fd => fd.hdr.all (fun op => !isPrimOp op || cs.any (fun c => c.1 && c.2.2 == op))
+     | none => true))
+
 /-- how many bodies of the regenerated program are, statement for statement, the committed translation the theorems are about -/
 def sameBodies (g p : List Func) : List Bool :=
   (List.range p.length).map (fun i => decide (g[i]? = p[i]?))
